@@ -62,7 +62,7 @@ CHECKS["C02"] = {
 CHECKS["C01"] = {
     "text": "PARTIAL. Decided by the specification: the direction algebra - Pipeline.tla's plan of a definition is a word over elementary operators; TLC checks that Plan(d, Inv) is the reversed, direction-flipped Plan(d, Fwd) and that inverse-after-forward / forward-after-inverse restore the operands exactly for every enumerated definition of invertible steps, inv modifiers, pipelines and (nested, inverted) macros; replayed into the library with exact comparison (probe basis and exact built-ins: addone, adapt, axisswap, integer helmert) and with the hook-logged dispatch sequence compared with the specification's plan. NOT decided by the specification: that each elementary operator's inverse numerically undoes its forward - this enters as an axiom and is validated as an assumption over a catalogue lattice with the statement's tolerances (reported separately as assumption_evaluations).",
     "design_ref": "DESIGN.md §5.1",
-    "note": "Bounded: definitions of <= 3 steps over 4 probes and 4 macros. Numerical accuracy between lattice points and for random ellipsoids is numerical analysis and is not decided.",
+    "note": "Bounded: definitions of <= 3 steps over 4 probes and 4 macros. The catalogue lattice (spec/RoundTrip.tla: 28 operator families x aspects x every built-in ellipsoid x integer degree/metre points x both orders; quick 1.8e4, thorough 1.7e6 round trips) is evaluated on the ground with the statement's classes (exact 0; rigorous 10 um; btmerc/butm/omerc/cart above 100 km 1 mm; molodensky 'millimetre level' taken as 20 mm for |lat| <= 80) and reported as assumption_evaluations. Numerical accuracy between lattice points and for random ellipsoids is numerical analysis and is not decided.",
     "technique": "TLA+ spec + TLC (free-group algebra of plans); behaviours replayed into the library; dispatch-hook conformance; catalogue lattice as validated assumption",
 }
 
@@ -130,6 +130,13 @@ CHECKS["C13"] = {
     "design_ref": "DESIGN.md §5.13",
     "note": "lat_ts <-> k_0 uses the statement's closed form evaluated in the driver (assumption_evaluations). Quick: canonical member, one-parameter neighbours and twins (86k pairs); thorough: all pairs per class (2.85M) incl. every built-in ellipsoid name. lat_0 of merc/tmerc/btmerc, omerc lonc and the identity of the default ellipsoid are outside the statement and not compared; where lon_0 or a false origin differs the tolerance includes the rounding of the longitude and of the shift.",
     "technique": "TLA+ spec + TLC exhaustive enumeration of definition pairs; pairwise relational replay into the real operators + params() comparison",
+}
+
+CHECKS["C10"] = {
+    "text": "spec/Catalogue.tla: one row per built-in operator parameterisation (78 rows over all 36 built-in names) with the coordinate elements it reads and writes, the dependency of outputs on inputs, invertibility, declared domain limits and representative points inside / far outside / at the edge / outside grid coverage with a null grid; an abstract semantics (per element same | new | nan | any, per tuple counted yes | no | either) predicting the admissible outcomes for operator x direction x domain class x NaN mask (all 16), for whole sets, and - by composing the per-step transformers with stack depth and min-count - for pipelines with inv and omit_*. TLC checks the sanity of the abstract semantics (count <= n, uncounted => NaN somewhere, untouched elements kept, forced NaN propagates, inside => counted, outside => not counted, no deviation coincides with the reference). Every case, set and pipeline is replayed on the real operators (results abstracted by bit comparison and is_nan; per-step counts from the step hook).",
+    "design_ref": "DESIGN.md §5.10",
+    "note": "quick: 3 216 cases, 156 sets, 14 170 two-step pipelines; thorough: all-rows two-step and three-step pipelines (127 885). Domain classes are decided at representative points only, not across the whole domain. Not compared: which elements carry the NaN of a failed tuple; lcc/somerc non-convergence (no representative point); operators that declare no limit have no 'outside' class.",
+    "technique": "TLA+ abstract-interpretation spec enumerated by TLC; every case, set and pipeline replayed on the real operators; per-step counts from the step hook",
 }
 
 _claimed = set(CHECKS)
